@@ -39,29 +39,43 @@ def ins (x : Name) (xs : List Name) : List Name := if xs.contains x then xs else
 
 def union (xs ys : List Name) : List Name := ys.foldl (fun acc y => ins y acc) xs
 
-/-- the parser's `Frame` (sets as duplicate-free lists) -/
+/-- the parser's `Frame` (sets as duplicate-free lists; `pendAcc` is a multiset: the parser counts
+pending accesses, /repo da73144) -/
 structure PFrame where
   assigned : List Name := []     -- ids_assigned_in_frame
   nonLocals : List Name := []    -- accessed_non_locals
-  pendAcc : List Name := []      -- pending_accesses
+  pendAcc : List Name := []      -- pending_accesses (one entry per counted access)
   pendAsg : List Name := []      -- pending_assignments
+  inProg : List Name := []       -- assignments_in_progress (/repo 86c848a)
   deriving Repr, Inhabited
 
-def PFrame.access (f : PFrame) (x : Name) : PFrame := { f with pendAcc := ins x f.pendAcc }
+/-- `add_id_access`: one more counted access -/
+def PFrame.access (f : PFrame) (x : Name) : PFrame := { f with pendAcc := f.pendAcc ++ [x] }
 
-/-- `add_local_id_assignment`: note that the pending *access* of the id is removed -/
+/-- `add_local_id_assignment`: the id becomes a pending assignment and exactly *one* pending access
+of it (the one noted when the left-hand side was parsed as an expression) is discarded -/
 def PFrame.assignId (f : PFrame) (x : Name) : PFrame :=
-  { f with pendAsg := ins x f.pendAsg, pendAcc := f.pendAcc.filter (· != x) }
+  { f with pendAsg := ins x f.pendAsg, pendAcc := f.pendAcc.erase x }
 
 /-- `finalize_id_accesses` -/
 def PFrame.finalize (f : PFrame) : PFrame :=
-  { assigned := union f.assigned f.pendAsg,
+  { f with
+    assigned := union f.assigned f.pendAsg,
     nonLocals := union f.nonLocals (f.pendAcc.filter (fun x => !f.assigned.contains x)),
     pendAcc := [], pendAsg := [] }
 
+/-- `begin_assignment_rhs`: the targets are "in progress" while the right-hand side is parsed, so
+expression lists nested in it do not count them as assigned -/
+def PFrame.beginRhs (f : PFrame) : PFrame :=
+  { f with inProg := union f.inProg f.pendAsg, pendAsg := [] }
+
+/-- `end_assignment_rhs ids` -/
+def PFrame.endRhs (f : PFrame) (ids : List Name) : PFrame :=
+  { f with inProg := f.inProg.filter (fun x => !ids.contains x), assigned := union f.assigned ids }
+
 /-- `add_nested_accessed_non_locals` -/
 def PFrame.addNested (f : PFrame) (nested : List Name) : PFrame :=
-  nested.foldl (fun f x => if f.pendAsg.contains x then f else f.access x) f
+  nested.foldl (fun f x => if f.pendAsg.contains x || f.inProg.contains x then f else f.access x) f
 
 mutual
 /-- one expression parsed inside the current frame -/
@@ -81,7 +95,8 @@ def pe : Ex → PFrame → PFrame
     -- the target is first parsed as an id (an access), then turned into an assignment;
     -- the right-hand side is an expression list
     let f := (f.access x).assignId x
-    (pe e f).finalize
+    let ids := f.pendAsg
+    ((pe e f.beginRhs).finalize).endRhs ids
   | .fn ps body, f => f.addNested (peBlock body { assigned := ps }).nonLocals
   | .call g args, f => peArgs args (f.access g)
 /-- comma separated expressions without a list boundary (call arguments) -/
@@ -135,12 +150,13 @@ end
 /-- free variables of the function `|ps| body` -/
 def freeVars (ps : List Name) (body : List Ex) : List Name := (fvBlock body ps).1
 
-/-! ### The shape on which the parser's analysis is complete
+/-! ### The envelope of the evaluator comparison
 
-`Simple e`: no assignment inside `e`. A block is *well shaped* when assignments are whole lines
-`x = e` with `e` simple and either `e` is a function literal, or `x` is not read in `e` after the
-first nested expression list (inline-`if` branch) and no function literal inside `e` mentions `x`
-(the F-C02-1 shape is the complement of the second clause). -/
+`simple e`: no assignment inside `e`. A block is *well shaped* when assignments are whole lines
+`x = e` with `e` simple, and a function literal strictly inside such an `e` does not mention `x`
+(inside the right-hand side of `x = …` the parser leaves `x` to the function's deferred self
+capture, which is meant for `x = |…| …` itself). Since /repo da73144 + 86c848a reads of `x` anywhere
+in `e` (after inline-`if` branches included) are inside the envelope. -/
 
 mutual
 /-- reads of `x` anywhere in `e` (function bodies included) -/
@@ -160,41 +176,22 @@ def mentionsList (x : Name) : List Ex → Bool
   | e :: es => mentions x e || mentionsList x es
 end
 
-
 mutual
-/-- `e` contains a nested expression list (an inline `if`) outside function literals -/
-def hasList : Ex → Bool
+/-- a function literal inside `e` mentions `x` -/
+def fnMentions (x : Name) : Ex → Bool
   | .lit _ => false
   | .var _ => false
-  | .add a b => hasList a || hasList b
-  | .sub a b => hasList a || hasList b
-  | .lt a b => hasList a || hasList b
-  | .paren e => hasList e
-  | .ite _ _ _ => true
-  | .assign _ _ => true
-  | .fn _ _ => false
-  | .call _ args => hasListArgs args
-def hasListArgs : List Ex → Bool
-  | [] => false
-  | e :: es => hasList e || hasListArgs es
-end
-
-mutual
-/-- `x` is read at or after the first nested expression list of `e`, or inside a function literal -/
-def readAfterList (x : Name) : Ex → Bool
-  | .lit _ => false
-  | .var _ => false
-  | .add a b => readAfterList x a || (hasList a && mentions x b) || readAfterList x b
-  | .sub a b => readAfterList x a || (hasList a && mentions x b) || readAfterList x b
-  | .lt a b => readAfterList x a || (hasList a && mentions x b) || readAfterList x b
-  | .paren e => readAfterList x e
-  | .ite c t e => readAfterList x c || mentions x t || mentions x e
-  | .assign _ e => readAfterList x e
+  | .add a b => fnMentions x a || fnMentions x b
+  | .sub a b => fnMentions x a || fnMentions x b
+  | .lt a b => fnMentions x a || fnMentions x b
+  | .paren e => fnMentions x e
+  | .ite c t e => fnMentions x c || fnMentions x t || fnMentions x e
+  | .assign _ e => fnMentions x e
   | .fn _ body => mentionsList x body
-  | .call _ args => readAfterListArgs x args
-def readAfterListArgs (x : Name) : List Ex → Bool
+  | .call _ args => fnMentionsArgs x args
+def fnMentionsArgs (x : Name) : List Ex → Bool
   | [] => false
-  | e :: es => readAfterList x e || (hasList e && mentionsList x es) || readAfterListArgs x es
+  | e :: es => fnMentions x e || fnMentionsArgs x es
 end
 
 def isFn : Ex → Bool
@@ -219,7 +216,7 @@ def simpleArgs : List Ex → Bool
 /-- a block of lines: assignments are whole lines `x = e` -/
 def shapedBlock : List Ex → Bool
   | [] => true
-  | .assign x e :: es => simple e && (isFn e || !readAfterList x e) && shapedBlock es
+  | .assign x e :: es => simple e && (isFn e || !fnMentions x e) && shapedBlock es
   | e :: es => simple e && shapedBlock es
 end
 
